@@ -516,7 +516,11 @@ func c17lifecycle(env *core.Env, cs c17case, res *core.CaseResult) {
 				if serr == nil {
 					what = "resurrected"
 				}
-				res.Violate(fmt.Sprintf("C17|%s|lifecycle|%s|%s|%s", subjKind17(cs.Subject), st.K, sit, what),
+				opName := st.K
+				if st.K == "H.Truncate" && st.N == 777 {
+					opName = "H.Truncate(same-size)" // a truncation to the size the file has: nothing changes, nothing is written
+				}
+				res.Violate(fmt.Sprintf("C17|%s|lifecycle|%s|%s|%s", subjKind17(cs.Subject), opName, sit, what),
 					fmt.Sprintf("[%s] after %s: %q exists=%v, os exists=%v", cs.Subject, st, name, serr == nil, rerr == nil), map[string]any{"subject": cs.Subject, "script": fsx.HistoryString(script)})
 				return false
 			}
@@ -550,7 +554,24 @@ func c17lifecycle(env *core.Env, cs c17case, res *core.CaseResult) {
 			// variant: after the name is gone the old handles are only read, so that the history is not cut short by
 			// the known finding about writes (F20) and handle validity after Remove/Rename is compared with os.File
 			slot := r.Intn(nh)
-			switch r.Intn(4) {
+			switch r.Intn(5) {
+			case 4:
+				// a truncation to exactly the size the handle sees (learnt by seeking to the end): a call that changes nothing
+				end, _ := do(fsx.Step{K: "H.Seek", Slot: slot, Off: 0, Whence: io.SeekEnd})
+				if !end.OK() {
+					continue
+				}
+				st = fsx.Step{K: "H.Truncate", Slot: slot, Off: end.N, N: 777}
+				sr, _ := do(st)
+				res.Count("same_size_truncations_after_unlink", 1)
+				if sr.Panic != "" {
+					res.Violate(fmt.Sprintf("C17|%s|lifecycle|%s|panic", cs.Subject, st.K), fmt.Sprintf("[%s] %s panicked: %s", cs.Subject, st, sr.Panic), map[string]any{"script": fsx.HistoryString(script)})
+					return
+				}
+				if !namesFollow(st, "after-unlink") {
+					return
+				}
+				continue
 			case 0:
 				st = fsx.Step{K: "H.ReadAt", Slot: slot, N: 6, Off: int64(r.Intn(8))}
 			case 1:
